@@ -177,7 +177,7 @@ class HObj(object):
     Heap objects are shared between forked states (copy-on-write): mutate only the
     object returned by ``State.wobj``."""
     __slots__ = ("cls", "fields", "kind", "open", "items", "count", "base", "label", "field_domains",
-                 "owner", "_kc")
+                 "owner", "_kc", "synthetic")
 
     def __init__(self, cls=None, fields=None, kind="obj", open=False, items=None, label=None,
                  field_domains=None):
@@ -192,12 +192,14 @@ class HObj(object):
         self.field_domains = field_domains or {}
         self.owner = None
         self._kc = None             # cached (key id, out refs) - reset by State.wobj
+        self.synthetic = True       # built by a harness (field set not authoritative) unless constructed from source
 
     def copy(self):
         o = HObj(self.cls, self.fields, self.kind, self.open,
                  list(self.items) if self.items is not None else None, self.label, self.field_domains)
         o.count = self.count
         o.base = self.base
+        o.synthetic = self.synthetic
         return o
 
     def clsname(self):
